@@ -201,3 +201,59 @@ theorem inv_of_reachable (P : Params) (hP : P.Good) (l : Launch) (alive : Bool) 
     (h : Reachable P l alive s) : Inv s :=
   reachable_induction (Inv := Inv) (inv_init l alive) (fun s e s' hi hs => inv_step P hP s s' e hi hs) s h
 end GoPlugin.Lifecycle
+
+namespace GoPlugin.Lifecycle
+
+theorem doStart_launch (P : Params) (s : State) (b : Bool) : (doStart P s b).1.launch = s.launch := by
+  unfold doStart
+  repeat' split
+  all_goals simp_all
+
+theorem doClient_launch (P : Params) (s : State) (b : Bool) : (doClient P s b).1.launch = s.launch := by
+  unfold doClient
+  repeat' split
+  all_goals simp_all
+
+/-- the launch method is part of the configuration: no event changes it -/
+theorem step_launch (P : Params) (s s' : State) (e : Event) (hs : step P s e = some s') : s'.launch = s.launch := by
+  cases e with
+  | start b => simp only [step, Option.some.injEq] at hs; subst hs; simp [emit, doStart_launch]
+  | client a b =>
+    simp only [step] at hs
+    cases hds : doStart P s a with
+    | mk s1 o =>
+      have h1 : s1.launch = s.launch := by have := doStart_launch P s a; rw [hds] at this; exact this
+      rw [hds] at hs
+      cases o <;> simp only [Option.some.injEq] at hs <;> subst hs <;> simp [emit, doClient_launch, h1]
+  | protocol a =>
+    simp only [step] at hs
+    cases hds : doStart P s a with
+    | mk s1 o =>
+      have h1 : s1.launch = s.launch := by have := doStart_launch P s a; rw [hds] at this; exact this
+      rw [hds] at hs
+      cases o <;> simp only [Option.some.injEq] at hs <;> subst hs <;> simp [emit, h1]
+  | reattachConfig => simp only [step, Option.some.injEq] at hs; subst hs; simp [emit]
+  | id => simp only [step, Option.some.injEq] at hs; subst hs; simp [emit]
+  | exited => simp only [step, Option.some.injEq] at hs; subst hs; simp [emit]
+  | killA a b =>
+    simp only [step] at hs
+    split at hs
+    · simp only [Option.some.injEq] at hs; subst hs; simp [emit]
+    · simp only [Option.some.injEq] at hs; subst hs
+      split <;> simp [doClient_launch, doStart_launch]
+  | killB =>
+    simp only [step] at hs
+    split at hs
+    · simp only [Option.some.injEq] at hs; subst hs; simp [emit]
+    · simp at hs
+  | procDies p =>
+    simp only [step] at hs
+    split at hs
+    · simp only [Option.some.injEq] at hs; subst hs; rfl
+    · simp at hs
+
+theorem reachable_launch (P : Params) (l : Launch) (alive : Bool) (s : State) (h : Reachable P l alive s) : s.launch = l :=
+  reachable_induction (Inv := fun s => s.launch = l) (by cases l <;> simp [init])
+    (fun s e s' hi hs => by rw [step_launch P s s' e hs]; exact hi) s h
+
+end GoPlugin.Lifecycle
